@@ -290,7 +290,8 @@ def _r3_r4(ck: Checker, prog: Program):
             raise AnalysisError(f"{fq}: expected one append per window, found {len(apps)}")
         win = apps[0][2].args[-1]
         lst = apps[0][2].args[0]
-        if l.value != lst:
+        recv = apps[0][3].value.func.value
+        if not (isinstance(recv, ast.Name) and str(l.value) == recv.id):
             ck.violation("C10.R3", fq, "window samples", f"the list returned ({l.value}) is not the list the windows are appended to ({lst})", loc=f.loc())
         a_, b_ = _window_slice(win, AMP, DT)
         if a_ is None:
